@@ -646,14 +646,50 @@ package nbio
 
 // ---- engine start-up (C02): only what the read path relies on is stated: the default IO executor is created with
 // buffers that have room (see taskpool.NewIO). Everything else Start does (pollers, listeners) is outside this contract.
+//@ fieldfunc nbio.Config.Listen
+//@   note user-supplied (or net.Listen) listener factory
+//@   assigns allocates
+//@ fieldfunc nbio.Config.ListenUDP
+//@   assigns allocates
 //@ func (*Engine).AddConn
 //@   trusted
 //@   havoc
+//@   ensures forall e *Engine :: e.isOneshot == old(e.isOneshot) && e.Config.EpollMod == old(e.Config.EpollMod) && e.Config.EPOLLONESHOT == old(e.Config.EPOLLONESHOT)
 //@   note registration of a connection with a poller: addConn is under contract (C03, C04), this wrapper is not
 //@ func (*Engine).Start
-//@   props C02
+//@   props C02 C04
 //@   requires g != nil
 //@   assigns everything
+//@   note a poller goroutine takes a snapshot of isOneshot when it starts (readWriteLoop), and every contract of the write-interest logic (C04: Wired) relies on isOneshot agreeing with the configuration: it must be set before any poller goroutine is started
+//@   at before:go#* assert oneshotset: g.isOneshot == cfgOneshot(g)   // prop C02 C04
+//@   loop 1
+//@     invariant g != nil && g.isOneshot == cfgOneshot(g)
+//@   loop 2
+//@     invariant g != nil && g.isOneshot == cfgOneshot(g)
+//@   loop 3
+//@     invariant g != nil && g.isOneshot == cfgOneshot(g)
+//@   loop 4
+//@     invariant g != nil && g.isOneshot == cfgOneshot(g)
+//@   loop 5
+//@     invariant g != nil && g.isOneshot == cfgOneshot(g)
+//@   loop 6
+//@     invariant g != nil && g.isOneshot == cfgOneshot(g)
+//@   loop 7
+//@     invariant g != nil && g.isOneshot == cfgOneshot(g)
+//@   loop 8
+//@     invariant g != nil && g.isOneshot == cfgOneshot(g)
+//@   loop 9
+//@     invariant g != nil && g.isOneshot == cfgOneshot(g)
+//@   loop 10
+//@     invariant g != nil && g.isOneshot == cfgOneshot(g)
+//@   loop 11
+//@     invariant g != nil && g.isOneshot == cfgOneshot(g)
+//@   loop 12
+//@     invariant g != nil && g.isOneshot == cfgOneshot(g)
+//@   loop 13
+//@     invariant g != nil && g.isOneshot == cfgOneshot(g)
+//@   loop 14
+//@     invariant g != nil && g.isOneshot == cfgOneshot(g)
 
 // ---- asynchronous reading (C02): at most one read task per connection at a time, and what a read returns is handed to
 // the data callback before the next read. readEvents counts the readiness events owed to the running task plus one for
